@@ -15,28 +15,47 @@ import AkdModel.Lemmas.GenLemmas
 namespace Akd.C02
 open Akd C01
 
-/-- proof generation over storage = canonical proof generation (membership / longest-prefix walk) -/
+/-- the side condition `hnp` of the two `*Proof_refines` theorems holds whenever all leaves have
+256-bit labels (as in the directory) and the query has at most 256 bits -/
+theorem noProperPrefix_of_256 (t : CRoot) (x : BitStr) (h256 : ∀ lf ∈ t.leaves, lf.lbl.length = 256)
+    (hx : x.length ≤ 256) : ∀ lf ∈ t.leaves, lf.lbl <+: x → lf.lbl = x := fun lf hlf hp =>
+  hp.eq_of_length_le (by rw [h256 lf hlf]; exact hx)
+
+/-- proof generation over storage = canonical proof generation (membership / longest-prefix walk).
+
+STATEMENT CHANGED: hypothesis `hnp` added (no leaf label is a PROPER prefix of the query).  Without
+it the statement is false (`membershipProof_refines_counterexample` at the end of this file): at a
+leaf whose label is a proper prefix of the query the Rust loop finds no child, `break`s with
+`equal = false` and pops back to the parent, while the canonical walk `CTree.path` stays at the leaf.
+It cannot happen in the directory: all leaf labels and all queries have 256 bits
+(`noProperPrefix_of_256`). -/
 theorem membershipProof_refines (c : Cfg) (s : NodeStore) (a : Azks) (t : CRoot)
     (hrep : ReprRoot c .directory s t) (hwf : t.WF)
     (hl : ∀ lf ∈ t.leaves, 1 ≤ lf.lbl.length ∧ lf.lbl.length ≤ 256)
     (hep : ∀ lf ∈ t.leaves, lf.ep ≤ a.latestEpoch)
-    (x : BitStr) (hx : x.length ≤ 256) :
-    s.membershipProof c a (NodeLabel.ofBits x) = .ok (t.genMembership c x) := by
-  sorry
+    (x : BitStr) (hx : x.length ≤ 256)
+    (hnp : ∀ lf ∈ t.leaves, lf.lbl <+: x → lf.lbl = x) :
+    s.membershipProof c a (NodeLabel.ofBits x) = .ok (t.genMembership c x) :=
+  Gen.membershipProof_core c s a t x hx ((reprRoot_iff c .directory s t).1 hrep) hwf
+    (fun lf h => (hl lf h).2) hep hnp
 
+/-- STATEMENT CHANGED: hypothesis `hnp` added, see `membershipProof_refines`. -/
 theorem nonMembershipProof_refines (c : Cfg) (s : NodeStore) (a : Azks) (t : CRoot)
     (hrep : ReprRoot c .directory s t) (hwf : t.WF)
     (hl : ∀ lf ∈ t.leaves, 1 ≤ lf.lbl.length ∧ lf.lbl.length ≤ 256)
     (hep : ∀ lf ∈ t.leaves, lf.ep ≤ a.latestEpoch)
-    (x : BitStr) (hx : x.length ≤ 256) :
-    s.nonMembershipProof c a (NodeLabel.ofBits x) = .ok (t.genNonMembership c x) := by
-  sorry
+    (x : BitStr) (hx : x.length ≤ 256)
+    (hnp : ∀ lf ∈ t.leaves, lf.lbl <+: x → lf.lbl = x) :
+    s.nonMembershipProof c a (NodeLabel.ofBits x) = .ok (t.genNonMembership c x) :=
+  Gen.nonMembershipProof_core c s a t x hx ((reprRoot_iff c .directory s t).1 hrep) hwf
+    (fun lf h => (hl lf h).2) hep hnp
 
 theorem rootHash_refines (c : Cfg) (s : NodeStore) (a : Azks) (t : CRoot)
     (hrep : ReprRoot c .directory s t) (hep : ∀ lf ∈ t.leaves, lf.ep ≤ a.latestEpoch) :
-    s.rootHash c a = .ok (t.rootHash c) := by
-  sorry
+    s.rootHash c a = .ok (t.rootHash c) :=
+  rootHash_of_reprRoot c .directory s t a.latestEpoch a.numNodes hrep hep
 
+set_option linter.unusedVariables false in
 /-- **lookup completeness**: in a state that represents the specification state, the lookup of a
 published label succeeds, returns the current epoch and root hash, and verification of the returned
 proof yields exactly (epoch of the latest update, version count, latest value) -/
@@ -49,11 +68,83 @@ theorem lookup_complete (c : Cfg) (hc : c.Lawful) (hce : c.emptyLabel.len = 0) (
     ∃ π, d.lookup c u = .ok (π, sp.epoch, Spec.rootHash c d.commitmentKey d.vrf sp) ∧
       Verify.lookup c d.vrf (Spec.rootHash c d.commitmentKey d.vrf sp) sp.epoch u π
         = .ok ⟨last.epoch, last.version, last.value⟩ := by
-  sorry
+  obtain ⟨hE, le, lm, ln, hle, hlm, hln, hgen⟩ := Gen.lookup_gen c d sp users N hv ht hN href u hmem last hlast
+  obtain ⟨hwf, h256, -⟩ := Gen.refines_tree_facts c d sp hv href
+  exact ⟨_, hgen, Gen.honestLookup_verifies c hc hfresh d.commitmentKey d.vrf hv _ hwf h256 u (sp.table.get u)
+    (refines_honest c hc d sp hv users N ht hN hu href u hmem) last hlast sp.epoch hE le lm ln hle hlm hln⟩
 
 /-- a label that was never published has no lookup proof -/
 theorem lookup_unpublished (c : Cfg) (d : Dir) (sp : Spec.State) (href : Refines c d sp) (u : Bytes)
-    (hnone : sp.table.get u = []) : ∃ e, d.lookup c u = .error e := by
-  sorry
+    (hnone : sp.table.get u = []) : ∃ e, d.lookup c u = .error e :=
+  ⟨.notFound, Gen.lookup_unpublished_core c d sp href u hnone⟩
 
+/-! ## why `hnp` is needed: a counterexample to the two `*Proof_refines` statements without it -/
+section Counterexample
+
+private def cxEls : List (BitStr × Dig) := [([false], Dig.raw [1]), ([true, true], Dig.raw [2])]
+private def cxQuery : BitStr := [false, true]
+/-- the canonical tree over the leaves `0` and `11` (epoch 1) -/
+private def cxTree : CRoot := (newLeaves cxEls 1).foldl CRoot.insert1 CRoot.empty
+/-- the storage after `Azks::new` and one batch insertion of the two leaves -/
+private def cxStore : NodeStore × Azks :=
+  match (({} : NodeStore).setRec ⟨NodeLabel.root, TreeNode.newRoot Cfg.whatsappV1, none⟩).batchInsert
+      Cfg.whatsappV1 .directory ⟨0, 1⟩ (cxEls.map fun x => (NodeLabel.ofBits x.1, x.2)) with
+  | .ok r => r
+  | .error _ => ({}, ⟨0, 0⟩)
+
+private def lenOf : Except Err MembershipProof → Nat
+  | .ok p => p.label.len
+  | .error _ => 7
+
+private def lenOfN : Except Err NonMembershipProof → Nat
+  | .ok p => p.longestPrefix.len
+  | .error _ => 7
+
+/-- leaves `0` and `11`, query `01`: every hypothesis of the original statements holds, but the
+storage walk answers with the ROOT (label length 0: at the leaf `0` it finds no child towards `01`,
+breaks and pops), the canonical walk with the LEAF `0` (label length 1) -/
+theorem membershipProof_refines_counterexample :
+    ∃ (s : NodeStore) (a : Azks) (t : CRoot) (x : BitStr),
+      ReprRoot Cfg.whatsappV1 .directory s t ∧ t.WF ∧
+      (∀ lf ∈ t.leaves, 1 ≤ lf.lbl.length ∧ lf.lbl.length ≤ 256) ∧
+      (∀ lf ∈ t.leaves, lf.ep ≤ a.latestEpoch) ∧ x.length ≤ 256 ∧
+      s.membershipProof Cfg.whatsappV1 a (NodeLabel.ofBits x) ≠ .ok (t.genMembership Cfg.whatsappV1 x) ∧
+      s.nonMembershipProof Cfg.whatsappV1 a (NodeLabel.ofBits x) ≠ .ok (t.genNonMembership Cfg.whatsappV1 x) := by
+  obtain ⟨s₀, h0, hr0⟩ := azksNew_repr Cfg.whatsappV1 .directory ({} : NodeStore)
+  have hs₀ : s₀ = ({} : NodeStore).setRec ⟨NodeLabel.root, TreeNode.newRoot Cfg.whatsappV1, none⟩ := by
+    have : ({} : NodeStore).azksNew Cfg.whatsappV1 =
+        .ok (({} : NodeStore).setRec ⟨NodeLabel.root, TreeNode.newRoot Cfg.whatsappV1, none⟩, ⟨0, 1⟩) := rfl
+    rw [this] at h0
+    injection h0 with h0
+    injection h0 with h0
+    exact h0.symm
+  obtain ⟨s', n, h1, hr1⟩ := batchInsert_refines Cfg.whatsappV1 rfl .directory s₀ ⟨0, 1⟩ CRoot.empty hr0
+    Canon.Root.empty_wf (by simp [CRoot.empty, CRoot.leaves]) cxEls
+    (by simp [PrefixFree, CRoot.empty, CRoot.leaves, newLeaves, cxEls])
+    (by simp [CRoot.empty, CRoot.leaves, newLeaves, cxEls])
+  have hst : cxStore = (s', ⟨1, n⟩) := by
+    unfold cxStore
+    rw [← hs₀, h1]
+  have hs' : s' = cxStore.1 := by rw [hst]
+  have ha : (⟨1, n⟩ : Azks) = cxStore.2 := by rw [hst]
+  refine ⟨s', ⟨1, n⟩, cxTree, cxQuery, hr1, by decide +kernel, by decide +kernel,
+    (show ∀ lf ∈ cxTree.leaves, lf.ep ≤ 1 by decide +kernel), by decide +kernel, ?_, ?_⟩
+  · rw [hs', ha]
+    intro h
+    have h1 : lenOf (cxStore.1.membershipProof Cfg.whatsappV1 cxStore.2 (NodeLabel.ofBits cxQuery)) = 0 := by
+      decide +kernel
+    have h2 : (cxTree.genMembership Cfg.whatsappV1 cxQuery).label.len = 1 := by decide +kernel
+    rw [h] at h1
+    simp only [lenOf] at h1
+    omega
+  · rw [hs', ha]
+    intro h
+    have h1 : lenOfN (cxStore.1.nonMembershipProof Cfg.whatsappV1 cxStore.2 (NodeLabel.ofBits cxQuery)) = 0 := by
+      decide +kernel
+    have h2 : (cxTree.genNonMembership Cfg.whatsappV1 cxQuery).longestPrefix.len = 1 := by decide +kernel
+    rw [h] at h1
+    simp only [lenOfN] at h1
+    omega
+
+end Counterexample
 end Akd.C02
